@@ -3,6 +3,7 @@ import Lox.Rang3.Drv
 import Lox.Table.Drv
 import Lox.LR.Drv
 import Lox.LR.DrvDesugar
+import Lox.LR.DrvRecovery
 import Lox.Lex.Drv
 import Lox.Lex.DrvRuntime
 import Lox.Dec.Drv
@@ -21,7 +22,7 @@ def dispatch (line : String) : String :=
   let r := match area with
     | "rang3" => Lox.Rang3.handle op payload
     | "table" => Lox.Table.handle op payload
-    | "lr" => (Lox.LR.handle op payload).orElse fun _ => Lox.LR.handleDesugar op payload
+    | "lr" => ((Lox.LR.handle op payload).orElse fun _ => Lox.LR.handleDesugar op payload).orElse fun _ => Lox.LR.Rt.handleRecovery op payload
     | "lex" => (Lox.Lex.handle op payload).orElse fun _ => Lox.Lex.Rt.handleRuntime op payload
     | "dec" => (((Lox.Dec.handle op payload).orElse fun _ => Lox.Dec.Terminals.handleTerminals op payload).orElse fun _ => Lox.Dec.Assign.handleAssign op payload).orElse fun _ => Lox.Dec.Analyze.handleAnalyze op payload
     | _ => none
